@@ -12,12 +12,12 @@ TEXT = {
             "CrossHair/z3 per path; in-memory socket layer replaces the kernel; queue.LifoQueue, http.client trusted"),
     "C02": ('every schedule (two pre-emptions of the worker, one of the other thread) of two real threads running the real pool code in lock-step; scheduling points = every access to pool.pool and every queue operation; the other thread is the real close() or a second request',
             'two threads; pre-emption only at shared-state accesses (others commute); queue.LifoQueue internals trusted; liveness approximated by quiescence'),
-    "C03": ("bounded symbolic model checking of tagged request/response histories on pooled connections",
+    "C03": ("every history (server behaviour x caller disposal x response object kept/dropped/closed x remainder in flight) of tagged requests on pooled keep-alive connections, solver-enumerated",
             "in-memory peer; http.client trusted"),
     "C04": ("Retry.increment decided for unbounded symbolic counters (partitioned), sleeps for symbolic float backoff "
-            "parameters, one urlopen attempt with a spying Retry, small closed loops",
+            "parameters, Retry-After dates under a symbolic wall clock, attempt histories with a spying Retry over direct/forwarding/tunnel topologies",
             "composition of lemmas R and U is an argument; clock/random stubbed"),
-    "C05": ("one redirect hop (re-entry cut) from any policy state at request/pool/manager layer, plus bounded chains",
+    "C05": ("one redirect hop (re-entry cut) from any policy state at request/pool/manager layer, bounded endless chains, and chains behind a failed first attempt",
             "in-memory peers; oracle from RFC 9110 15.4 and urljoin semantics"),
     "C06": ("one redirect hop with symbolic header casings/containers/origin deltas; 2-hop chains",
             "hashing pins free header names; names from casing pools"),
@@ -28,7 +28,7 @@ TEXT = {
             "hashlib concrete; hmac.compare_digest replaced by =="),
     "C09": ('every routing configuration (CONNECT reply, certificate validity per leg, host form, port, proxy headers, caller Host, request count, tunnel closed in between) through the real ProxyManager/tunnel code over an in-memory relaying proxy',
             'TLS bytes abstracted by the contract stub'),
-    "C10": ("SMT language lemmas on the live validation regexes + symbolic wire harnesses with an independent strict request parser",
+    "C10": ("SMT language lemmas on the live validation regexes + wire harnesses with an independent strict request parser (hostile fields, hostile bodies, rejected-then-reused connections)",
             "http.client's own checks are part of the executed code"),
     "C11": ("symbolic body content/shape through HTTPConnection.request with an independent framing parser; resend histories",
             "file objects are fixtures"),
@@ -39,17 +39,17 @@ TEXT = {
     "C14": ("SMT regular-language lemmas (any length) on the compiled URL patterns + solver-enumerated URL skeleton holes "
             "through the real parse_url against an independent RFC 3986 reading",
             "running-time clause not decided; IDNA tables outside"),
-    "C15": ("symbolic URL skeletons through PoolManager onto the in-memory wire: dial address, Host, SNI, target",
+    "C15": ("URL skeletons through PoolManager onto the in-memory wire: dial address, Host, SNI, target; two spellings of one origin raced by two real threads under every schedule",
             "TLS cut at wrap function"),
     "C16": ("inductive step on HTTPHeaderDict: one operation from symbolic states with unbounded symbolic values against a "
             "reference multimap", "names from a casing pool"),
-    "C17": ("inductive step on the LRU container with dispose/lock monitors; PoolManager layer over the in-memory net",
-            "free interleavings reduced by lock-discipline argument"),
+    "C17": ("inductive step on the LRU container with dispose/lock monitors; PoolManager layer over the in-memory net; every schedule of two real threads on one PoolManager against a linearizability oracle",
+            "two threads, pre-emption at lock and dict accesses; beyond that a lock-discipline argument"),
     "C18": ("pool keys for contexts differing in one keyword with unconstrained symbolic values, compared as tuples; map layer on fixtures",
             "LRU dict cut in the key layer"),
-    "C19": ("Timeout arithmetic with unbounded symbolic ints/floats and a symbolic clock, unit and pool level",
+    "C19": ("Timeout arithmetic with unbounded symbolic ints/floats and a symbolic clock, unit and pool level (direct and CONNECT-tunnel topology, reply pending early or not)",
             "NaN/inf outside"),
-    "C20": ("per-code-point lemma for the WHATWG escaping + one symbolic component through the encoder and an independent strict parser",
+    "C20": ("per-code-point lemmas (escaping function; RequestField/from_tuples/render_headers) + one symbolic component through the encoder and an independent strict parser",
             "BytesIO realises values: alphabet-bounded"),
 }
 
@@ -59,7 +59,9 @@ ENUM = ("SMT-driven exhaustive exploration of a bounded space: one symbolic inde
 LEM = "; SMT regular-language queries (z3 sequence/regex theory, cvc5 cross-check) generated from the live compiled patterns, strings of any length"
 TECH = {"C01": SYM, "C02": ENUM + "; two real threads in lock-step under the solver-chosen schedule", "C03": ENUM, "C04": SYM + "; " + ENUM,
         "C05": SYM + "; " + ENUM, "C06": ENUM + "; " + SYM, "C07": ENUM, "C08": ENUM + LEM, "C09": ENUM, "C10": ENUM + LEM, "C11": ENUM,
-        "C12": ENUM, "C13": ENUM, "C14": ENUM + LEM, "C15": ENUM, "C16": SYM, "C17": SYM, "C18": SYM + "; " + ENUM, "C19": SYM, "C20": SYM}
+        "C12": ENUM, "C13": ENUM, "C14": ENUM + LEM, "C15": ENUM + "; two real threads in lock-step under the solver-chosen schedule", "C16": SYM, "C17": SYM + "; " + ENUM + "; two real threads in lock-step under the solver-chosen schedule", "C18": SYM + "; " + ENUM, "C19": SYM, "C20": SYM}
+TECH["C03"] = ENUM
+TECH["C05"] = SYM + "; " + ENUM
 ENGINE = {k: ("E1-sym" if v.startswith("bounded") else "E1-enum") + (" + E1-enum" if (v.startswith("bounded") and "SMT-driven" in v) else "")
           + (" + E1-sym" if (not v.startswith("bounded") and "bounded symbolic" in v) else "") + (" + E2" if "regular-language" in v else "")
           for k, v in TECH.items()}
